@@ -285,6 +285,20 @@ func accessPathD(v ssa.Value, d int) string {
 	case *ssa.Phi:
 		// loop variables: a phi has no path, but name it so x[i] with the same i compares equal
 		return "phi:" + x.Name() + "@" + itoa(x.Block().Index)
+	case *ssa.BinOp:
+		// rotated range loops index with (phi + 1)
+		if c, ok := x.Y.(*ssa.Const); ok && c.Value != nil {
+			if p := accessPathD(x.X, d+1); p != "" {
+				return "(" + p + x.Op.String() + c.Value.ExactString() + ")"
+			}
+		}
+		return ""
+	case *ssa.Extract:
+		// range-over-map/string element or tuple component of a named call result
+		if nx, ok := x.Tuple.(*ssa.Next); ok {
+			return "next:" + nx.Name() + "#" + itoa(x.Index)
+		}
+		return ""
 	}
 	return ""
 }
